@@ -63,9 +63,10 @@ let precis_tab user pass nuser npass =
 (* keys: "<ServerKey>:<ServerKey of the other password>:<HMAC("", "Server Key")>" *)
 let params keys salt iter =
   match split_on ':' keys with
-  | [sk; ok; ek] ->
+  | sk :: ok :: ek :: zk ->
     { M.sp_salt = bytes_of_hex salt; M.sp_iter = n_of_int (int_of_string iter);
       M.sp_server_key = bytes_of_hex sk; M.sp_other_key = bytes_of_hex ok; M.sp_empty_key = bytes_of_hex ek;
+      M.sp_zero_key = (match zk with [z] -> bytes_of_hex z | _ -> []);
       M.sp_nonce = bytes_of_string "srvNONCE" }
   | _ -> failwith "bad keys"
 
@@ -88,6 +89,12 @@ let run (toks : string list) : string =
       let tab = precis_tab user pass nuser npass in
       let (cls, sent) = M.c15_run v256 M.gen_cfg (M.table_oracle tab) id (params keys salt iter) (byteslist_of rands) (syms_of syms) in
       hex_of_bytes cls ^ " " ^ hexlist_of sent
+  | ["c15m"; variant; dialogues; rands; user; pass; nuser; npass; salt; iter; tls; keys] ->
+      let (v256, id) = scram_id variant user pass tls in
+      let tab = precis_tab user pass nuser npass in
+      let ds = List.map syms_of (split_on '/' dialogues) in
+      String.concat " | " (List.map (fun (cls, sent) -> hex_of_bytes cls ^ " " ^ hexlist_of sent)
+        (M.c15_multi v256 M.gen_cfg (M.table_oracle tab) id (params keys salt iter) (byteslist_of rands) ds))
   | ["c15r"; variant; syms1; syms2; rands; user; pass; nuser; npass; salt; iter; tls; keys] ->
       let (v256, id) = scram_id variant user pass tls in
       let tab = precis_tab user pass nuser npass in
